@@ -51,7 +51,11 @@ from __future__ import annotations
 import ast
 from pathlib import Path
 
-from .common import HEADER, body_no_doc, fail, find_func, parse
+from harness.core import TranslationError
+
+from .c02_norm import normalise as _normalise
+from .common import HEADER, body_no_doc, fail, parse
+from .common import find_func as _find_func_raw
 
 MISC = "pyxel/observation/misc.py"
 OBS = "pyxel/observation/observation.py"
@@ -63,6 +67,90 @@ PROC = "pyxel/pipelines/processor.py"
 
 def _u(node) -> str:
     return ast.unparse(node)
+
+
+# ------------------------------------------------------------------------------- raw form first, then normal form
+# Every shape recogniser below reads its functions through find_func().  It is run on the functions AS WRITTEN first;
+# when that shape is unknown it is run once more on their NORMAL FORM (translator/c02_norm.py, written
+# property-independently: calls of private helpers of the same module / class / package inlined, single-assignment local
+# aliases substituted, guard clauses == if/else, match == if/elif, module-level literal constants resolved, conditional
+# expression == if/else assignment, docstrings / annotations stripped ...).  Each rewrite of the normaliser is a semantic
+# identity under its side conditions (differentially self-tested in c02_norm.selftest), so a recogniser that accepts
+# either form accepts only code that behaves like a known shape.  Both forms unknown -> the translation fails closed
+# (the message names the raw shape).  The state net (_no_hidden_state) always reads the code as written, helpers
+# included.
+
+_FORM = ["raw"]
+_REPO: list = [None]
+_NORMAL: dict = {}
+NORMAL_FORM_USED: list = []          # (recogniser, rewrites applied) of the last translate(): evidence
+
+
+def _class(tree, cls: str):
+    cands = [n for n in ast.walk(tree) if isinstance(n, ast.ClassDef) and n.name == cls]
+    if len(cands) != 1:
+        raise TranslationError(f"class {cls}: found {len(cands)}")
+    return cands[0]
+
+
+def _returns_named(fn: ast.FunctionDef) -> ast.FunctionDef:
+    """`return f(..)` -> `ret__c05_<n> = f(..); return ret__c05_<n>` (a copy): the normaliser inlines helper calls that
+    are a statement or the value of an assignment; its alias pass folds the name back into the `return`."""
+    import copy
+    fn = copy.deepcopy(fn)
+    k = 0
+    for node in ast.walk(fn):
+        for field in ("body", "orelse", "finalbody"):
+            block = getattr(node, field, None)
+            if not isinstance(block, list):
+                continue
+            i = 0
+            while i < len(block):
+                st = block[i]
+                if isinstance(st, ast.Return) and isinstance(st.value, ast.Call):
+                    k += 1
+                    nm = f"ret__c05_{k}"
+                    block[i:i + 1] = [ast.Assign([ast.Name(nm, ast.Store())], st.value, lineno=st.lineno, col_offset=0),
+                                      ast.Return(ast.Name(nm, ast.Load()), lineno=st.lineno, col_offset=0)]
+                    i += 1
+                i += 1
+    return ast.fix_missing_locations(fn)
+
+
+def find_func(tree, name: str, cls: str | None = None) -> ast.FunctionDef:
+    fn = _find_func_raw(tree, name, cls)
+    if _FORM[0] == "raw":
+        return fn
+    key = (id(tree), name, cls)
+    if key not in _NORMAL:
+        try:
+            out, log = _normalise(tree, _returns_named(fn), _class(tree, cls) if cls else None, repo=_REPO[0])
+        except TranslationError:
+            raise
+        except Exception as ex:                                   # the normaliser itself gave up: fail closed
+            raise TranslationError(f"{cls + '.' if cls else ''}{name}: no normal form ({type(ex).__name__}: {ex})") from ex
+        _NORMAL[key] = (out, log)
+    out, log = _NORMAL[key]
+    if log:
+        NORMAL_FORM_USED.append((f"{cls + '.' if cls else ''}{name}", list(log)))
+    return out
+
+
+def _either(recogniser, *args):
+    """recogniser(*args) on the code as written; on an unknown shape, on its normal form."""
+    _FORM[0] = "raw"
+    try:
+        return recogniser(*args)
+    except TranslationError as raw_error:
+        mark = len(NORMAL_FORM_USED)
+        _FORM[0] = "normal"
+        try:
+            return recogniser(*args)
+        except TranslationError as ex:
+            del NORMAL_FORM_USED[mark:]
+            raise TranslationError(f"{raw_error} [normal form: {ex}]"[:600]) from ex
+        finally:
+            _FORM[0] = "raw"
 
 
 def _returned_expr(fn: ast.FunctionDef) -> ast.expr:
@@ -114,6 +202,12 @@ def _name_with_model(tree) -> bool:
         if names.index(m) != 2 or names.index(p) != 4 or names.count(m) != 1 or names.count(p) != 1:
             fail(stmt, "the name must be <3rd component>.<5th component>")
 
+    # `if len(parts) == 5: <A> else: return name` + rest  ==  `if len(parts) != 5: return name` + <A> + rest
+    if len(b) >= 2 and isinstance(b[1], ast.If) and isinstance(b[1].test, ast.Compare) and len(b[1].test.ops) == 1 \
+            and isinstance(b[1].test.ops[0], ast.Eq) and len(b[1].orelse) == 1 and isinstance(b[1].orelse[0], ast.Return):
+        t = b[1]
+        guard = ast.If(ast.Compare(t.test.left, [ast.NotEq()], t.test.comparators), t.orelse, [])
+        b = [b[0], ast.copy_location(guard, t)] + list(t.body) + b[2:]
     if len(b) == 2:
         names = unpack(b[0], "name.split('.')")
         result(b[1], names)
@@ -146,35 +240,86 @@ def _enabled_steps(tree) -> None:
             fail(fn, f"{cls}.enabled_steps must be [step for step in self.parameters if step.enabled]")
 
 
-def _custom_build(tree) -> bool:
-    """-> cf_custom_range_optional"""
-    fn = find_func(tree, "build", "CustomMode")
-    sel = None
-    guards = set()
+def _single_stores(fn) -> dict:
+    """local name -> its value, for the names stored exactly once in `fn` by a plain (annotated) assignment."""
+    seen: dict = {}
     for n in ast.walk(fn):
-        tgt = None
-        if isinstance(n, ast.AnnAssign):
-            tgt = n.target
-        elif isinstance(n, ast.Assign) and len(n.targets) == 1:
-            tgt = n.targets[0]
-        if isinstance(tgt, ast.Name) and tgt.id == "filtered_data":
-            if sel is not None:
-                fail(n, "filtered_data assigned twice")
-            sel = n.value
-        if isinstance(n, ast.If) and n.body and isinstance(n.body[0], ast.Raise):
-            guards.add(_u(n.test))
-    if sel is None:
-        fail(fn, "CustomMode.build: no assignment to filtered_data")
-    for g in ("'_' not in counter", "num_parameters != num_columns"):
-        if g not in guards:
-            fail(fn, f"CustomMode.build: guard `if {g}: raise` not found")
-    loc = "all_data.loc[:, custom_columns]"
-    if _u(sel) == loc:
+        for t in _targets(n):
+            if isinstance(t, ast.Name):
+                plain = isinstance(n, (ast.Assign, ast.AnnAssign)) and \
+                    (n.target is t if isinstance(n, ast.AnnAssign) else (len(n.targets) == 1 and n.targets[0] is t))
+                seen.setdefault(t.id, []).append(n.value if plain else None)
+    return {k: v[0] for k, v in seen.items() if len(v) == 1 and v[0] is not None}
+
+
+def _custom_build(tree) -> bool:
+    """-> cf_custom_range_optional
+
+    Read by role, not by local name: the table handed to the constructor (`custom_data=` of the returned `cls(...)`,
+    followed through locals stored once) is `<T>.loc[:, custom_columns]`, or that only when `custom_columns` is given
+    and <T> itself otherwise, <T> = load_table(custom_file, ...); two raising guards: `'_' not in <C>` and
+    `<C>['_'] != <N>` (either directly or through a local stored once), <N> = len(<..>.columns)."""
+    fn = find_func(tree, "build", "CustomMode")
+    once = _single_stores(fn)
+
+    def follow(e, cheap_only=False):
+        for _ in range(6):
+            if isinstance(e, ast.Name) and e.id in once and \
+                    not (cheap_only and not isinstance(once[e.id], (ast.Name, ast.Subscript, ast.Attribute))):
+                e = once[e.id]
+            else:
+                break
+        return e
+
+    rets = [n for n in ast.walk(fn) if isinstance(n, ast.Return)]
+    if len(rets) != 1 or not (isinstance(rets[0].value, ast.Call) and _u(rets[0].value.func) in ("cls", "CustomMode")):
+        fail(fn, "CustomMode.build: expected one `return cls(parameters=..., custom_data=...)`")
+    kws = {k.arg: k.value for k in rets[0].value.keywords}
+    if rets[0].value.args or set(kws) != {"parameters", "custom_data"} or _u(kws["parameters"]) != "parameters":
+        fail(rets[0], "CustomMode.build: expected cls(parameters=parameters, custom_data=<table>)")
+    sel = follow(kws["custom_data"])
+
+    def is_loc(e):
+        """<T>.loc[:, custom_columns] -> T"""
+        if isinstance(e, ast.Subscript) and isinstance(e.value, ast.Attribute) and e.value.attr == "loc" \
+                and isinstance(e.value.value, ast.Name) and _u(e.slice) == "(:, custom_columns)":
+            return e.value.value.id
+        return None
+
+    def is_table(name):
+        v = once.get(name)
+        return isinstance(v, ast.Call) and _u(v.func) == "load_table" and v.args and _u(v.args[0]) == "custom_file"
+
+    guards = []
+    for n in ast.walk(fn):
+        if isinstance(n, ast.If) and n.body and isinstance(n.body[0], ast.Raise) and isinstance(n.test, ast.Compare) \
+                and len(n.test.ops) == 1:
+            guards.append((type(n.test.ops[0]).__name__, follow(n.test.left, True), follow(n.test.comparators[0], True)))
+    counters = [_u(r) for op, l, r in guards if op == "NotIn" and _u(l) == "'_'" and isinstance(r, ast.Name)]
+    if len(counters) != 1:
+        fail(fn, "CustomMode.build: guard `if '_' not in <counter>: raise` not found")
+    want = f"{counters[0]}['_']"
+    ok = False
+    for op, l, r in guards:
+        if op == "NotEq" and want in (_u(l), _u(r)):
+            other = r if _u(l) == want else l
+            v = once.get(other.id) if isinstance(other, ast.Name) else None
+            if v is not None and _u(v).startswith("len(") and _u(v).endswith(".columns)"):
+                ok = True
+    if not ok:
+        fail(fn, "CustomMode.build: guard `if <number of '_'> != <number of columns>: raise` not found")
+
+    t = is_loc(sel)
+    if t is not None and is_table(t):
         return False
     if isinstance(sel, ast.IfExp):
-        t, a, b = _u(sel.test), _u(sel.body), _u(sel.orelse)
-        if (t, a, b) == ("custom_columns is None", "all_data", loc) or \
-           (t, a, b) == ("custom_columns is not None", loc, "all_data"):
+        tst, a, b = _u(sel.test), sel.body, sel.orelse
+        if tst == "custom_columns is not None":
+            a, b = b, a
+        elif tst != "custom_columns is None":
+            fail(sel, "CustomMode.build: unknown column selection")
+        t = is_loc(b)
+        if t is not None and isinstance(a, ast.Name) and a.id == t and is_table(t):
             return True
     fail(sel, "CustomMode.build: unknown column selection")
 
@@ -213,15 +358,22 @@ def _dimension_names(tree) -> bool:
     if [a.arg for a in fn.args.args] != ["types"]:
         fail(fn, "_get_short_dimension_names_new signature")
     nodes = list(ast.walk(fn))
-    # readout-time special case
-    sp = [n for n in nodes if isinstance(n, ast.If) and isinstance(n.test, ast.Compare)
-          and len(n.test.ops) == 1 and isinstance(n.test.ops[0], ast.Eq)
-          and isinstance(n.test.comparators[0], ast.Constant) and isinstance(n.test.comparators[0].value, str)]
+    # readout-time special case: `if key == '<readout key>': n = 'readout_time' else: n = short(key)`, or the same as a
+    # conditional expression (the normal form of the former)
+    def str_eq(t):
+        return (isinstance(t, ast.Compare) and len(t.ops) == 1 and isinstance(t.ops[0], ast.Eq)
+                and isinstance(t.comparators[0], ast.Constant) and isinstance(t.comparators[0].value, str))
+
+    sp = [n for n in nodes if isinstance(n, (ast.If, ast.IfExp)) and str_eq(n.test)]
     if len(sp) != 1 or sp[0].test.comparators[0].value != "observation.readout.times":
         fail(fn, "expected exactly one special case, for 'observation.readout.times'")
-    consts = [s.value.value for s in sp[0].body if isinstance(s, (ast.Assign, ast.AnnAssign))
-              and isinstance(s.value, ast.Constant)]
-    others = [_u(s.value) for s in sp[0].orelse if isinstance(s, (ast.Assign, ast.AnnAssign))]
+    if isinstance(sp[0], ast.If):
+        consts = [s.value.value for s in sp[0].body if isinstance(s, (ast.Assign, ast.AnnAssign))
+                  and isinstance(s.value, ast.Constant)]
+        others = [_u(s.value) for s in sp[0].orelse if isinstance(s, (ast.Assign, ast.AnnAssign))]
+    else:
+        consts = [sp[0].body.value] if isinstance(sp[0].body, ast.Constant) else []
+        others = [_u(sp[0].orelse)]
     if consts != ["readout_time"] or len(others) != 1 or not (others[0].startswith("short(") and others[0].endswith(")")):
         fail(sp[0], "special case must give 'readout_time', every other key short(<key>)")
     # shared names: freq > 1
@@ -274,13 +426,11 @@ def _custom_dims(tree) -> bool:
 def _product_create_params(tree) -> bool:
     """-> cf_dask_product_dedup"""
     fn = find_func(tree, "create_params", "ProductMode")
-    vals = []
-    for n in ast.walk(fn):
-        tgt = n.target if isinstance(n, ast.AnnAssign) else (n.targets[0] if isinstance(n, ast.Assign) and len(n.targets) == 1 else None)
-        if isinstance(tgt, ast.Name) and tgt.id == "all_steps":
-            vals.append(n.value)
-    if len(vals) != 1 or not isinstance(vals[0], ast.DictComp) or len(vals[0].generators) != 1:
-        fail(fn, "ProductMode.create_params: expected all_steps = {step.key: <values> for step in self.enabled_steps}")
+    # the dict of value lists, whatever it is called: the one dict comprehension over self.enabled_steps
+    vals = [n for n in ast.walk(fn) if isinstance(n, ast.DictComp) and len(n.generators) == 1
+            and _u(n.generators[0].iter) == "self.enabled_steps"]
+    if len(vals) != 1:
+        fail(fn, "ProductMode.create_params: expected one {step.key: <values> for step in self.enabled_steps}")
     c = vals[0]
     g = c.generators[0]
     if not (isinstance(g.target, ast.Name) and _u(g.iter) == "self.enabled_steps" and not g.ifs
@@ -474,6 +624,17 @@ def _check_decorators(rel: str, node):
                 "<p>.setter / deprecated are known not to keep state)")
 
 
+def _immutable_literal(v) -> bool:
+    """str / number / bool / None / bytes, a negative number, a tuple of those: cannot be filled by a run."""
+    if isinstance(v, ast.Constant):
+        return True
+    if isinstance(v, ast.UnaryOp) and isinstance(v.op, (ast.USub, ast.UAdd)):
+        return isinstance(v.operand, ast.Constant) and isinstance(v.operand.value, (int, float, complex))
+    if isinstance(v, ast.Tuple):
+        return all(_immutable_literal(e) for e in v.elts)
+    return False
+
+
 def _check_module(rel: str, tree: ast.Module, whole: bool = True, only: tuple = ()):
     """The fail-closed net over one module.  whole=False: only the memoisation names and the functions in `only`."""
     for n in ast.walk(tree):
@@ -487,9 +648,17 @@ def _check_module(rel: str, tree: ast.Module, whole: bool = True, only: tuple = 
                 if al.name.split(".")[0] in _MEMO_NAMES or al.name in _MEMO_NAMES or mod.split(".")[0] in _MEMO_NAMES:
                     fail(n, f"{rel}: memoisation import")
     if whole:
+        stores: dict = {}
+        for n in ast.walk(tree):
+            for t in _targets(n):
+                if isinstance(t, ast.Name):
+                    stores[t.id] = stores.get(t.id, 0) + 1
         for st in tree.body:
             if isinstance(st, (ast.Assign, ast.AnnAssign, ast.AugAssign)):
                 names = {t.id for t in _targets(st) if isinstance(t, ast.Name)}
+                if names and len(names) == len(_targets(st)) and isinstance(st, (ast.Assign, ast.AnnAssign)) \
+                        and _immutable_literal(st.value) and all(stores.get(x) == 1 for x in names):
+                    continue        # a named immutable constant, bound once in the whole module (`global` fails anyway)
                 if not names or not names <= _MODULE_VARS.get(rel, set()):
                     fail(st, f"{rel}: module-level variable (state shared by all runs)")
     for st in tree.body:
@@ -553,16 +722,19 @@ def render(flags) -> str:
 def translate(repo: Path) -> str:
     misc = parse(repo, MISC)
     obs = parse(repo, OBS)
-    _short(misc)
-    _enabled_steps(misc)
-    fallback_full = _name_with_model(misc)
-    stage3 = _dimension_names(obs)
-    dims_distinct = _custom_dims(obs)
-    range_optional = _custom_build(misc)
-    positional, by_placeholder = _convert_custom_data(misc)
-    dedup = _product_create_params(misc)
-    seq_rows = _sequential_create_params(misc)
-    types_fresh = _parameter_types(obs)
+    _REPO[0] = repo
+    _NORMAL.clear()
+    del NORMAL_FORM_USED[:]
+    _either(_short, misc)
+    _either(_enabled_steps, misc)
+    fallback_full = _either(_name_with_model, misc)
+    stage3 = _either(_dimension_names, obs)
+    dims_distinct = _either(_custom_dims, obs)
+    range_optional = _either(_custom_build, misc)
+    positional, by_placeholder = _either(_convert_custom_data, misc)
+    dedup = _either(_product_create_params, misc)
+    seq_rows = _either(_sequential_create_params, misc)
+    types_fresh = _either(_parameter_types, obs)
     _no_hidden_state(repo, {MISC: misc, OBS: obs})
     return render((fallback_full, stage3, dims_distinct, range_optional, positional, by_placeholder, dedup, seq_rows,
                    types_fresh))
